@@ -1,6 +1,6 @@
 (* C19 — the file server never touches anything outside its root directory.
    Only statements here; every proof is [exact <lemma of Proofs/C19*.v>]. *)
-From Verif Require Import Lib.Py Lib.Tactics Model.C19Path Gen.fileserver Model.C19 Proofs.C19Path Proofs.C19.
+From Verif Require Import Lib.Py Lib.Tactics Model.C19Path Gen.fileserver Model.C19 Proofs.C19Path Proofs.C19 Proofs.C19R6.
 From Coq Require String.
 Import String.StringSyntax.
 Open Scope Z_scope.
@@ -139,6 +139,30 @@ Theorem C19_block_is_slice : forall c n szx, 0 <= szx ->
 Proof. intros c n szx H. split; [exact (block_payload_spec c n szx H)|exact (block_more_spec c n szx H)]. Qed.
 Print Assumptions C19_block_is_slice.
 
+(* history level (round 6): ANY sequence of GETs for the same file whose requested blocks tile it — first request without
+   a Block2 option (what aiocoap's own client sends; answered with block 0 of 1024 bytes), size exponent changing from
+   request to request, M flag of the request arbitrary — reassembles exactly the file, over the model's run function *)
+Theorem C19_blockwise_read_tiling : forall self req p c bs st,
+  code req = 1 -> opt_observe req = None -> existsb is_cur (opt_etags req) = false -> needs_blockwise_assembly req = false ->
+  request_to_localpath self req = Ok p -> fs_stat (st_fs st) (load_parts p) = inr (NFile c) ->
+  tiling c (map blk_of bs) -> blk_start (fst (hd (0, 0) (map blk_of bs))) (snd (hd (0, 0) (map blk_of bs))) = 0 ->
+  match run self st (map (fun b => IOne (with_block2 req b)) bs) with
+  | (st', outs) => payloads outs = c /\ all_content outs /\ st_fs st' = st_fs st
+  end.
+Proof.
+  intros self req p c bs st H1 H2 H3 H4 H5 H6 H7 H8.
+  pose proof (run_tiling self req p c H1 H2 H3 H4 H5 bs H7 st H6) as H. rewrite H8 in H. exact H.
+Qed.
+Print Assumptions C19_blockwise_read_tiling.
+(* one request, any Block2 option value or none: the answer is exactly the designated block *)
+Theorem C19_any_block2_option : forall self req p c b st,
+  code req = 1 -> opt_observe req = None -> existsb is_cur (opt_etags req) = false -> needs_blockwise_assembly req = false ->
+  request_to_localpath self req = Ok p -> fs_stat (st_fs st) (load_parts p) = inr (NFile c) ->
+  exists st1 effs, serve self (with_block2 req b) st = (st1, effs, block_response self req c (fst (blk_of b)) (snd (blk_of b)))
+                   /\ st_fs st1 = st_fs st.
+Proof. intros self req p c b st H1 H2 H3 H4 H5 H6. exact (serve_block_any self req p c H1 H2 H3 H4 H5 b st H6). Qed.
+Print Assumptions C19_any_block2_option.
+
 (* ================= 6. Block1 in front of PUT (needs_blockwise_assembly -> Block1Spool.feed_and_take): the spool has no
    file-system effect at all; the last block releases the request with the body assembled from all blocks (that is what
    render_put writes); a block that does not continue the body is answered with an error and changes nothing.  Theorems 2-4
@@ -170,6 +194,23 @@ Theorem C19_block1_bad_size_rejected : forall req st num more szx acc,
   block1_invalid more szx (payload req) = true -> feed_and_take req st = ((st, []), inl XBadRequest).
 Proof. exact feed_oversize. Qed.
 Print Assumptions C19_block1_bad_size_rejected.
+
+(* ================= 7. (round 6) from the initial state, and internal errors *)
+(* C19_confined_histories without its state hypothesis: a freshly started server (no observation yet) *)
+Theorem C19_confined_from_start : forall self items fs, root_ok (fs_root self) -> fs_tmpname self <> DOTDOT ->
+  match run self {| st_fs := fs; st_obs := []; st_spool := [] |} items with
+  | (st', outs) => Forall (fun o => Forall (conf (load_parts (fs_root self)) (abspath self (load_parts (fs_root self)))) (all_effects o)) outs
+                   /\ frame (parts (load_parts (fs_root self))) fs (st_fs st')
+                   /\ obs_under (load_parts (fs_root self)) st'
+  end.
+Proof. intros self items fs H1 H2. apply (run_confined self H1 H2 items). constructor. Qed.
+Print Assumptions C19_confined_from_start.
+(* the model's internal error output XValueError (Path.relative_to failing in render_get_dir, which would be a 5.00) is
+   unreachable: for every request and every state *)
+Theorem C19_no_internal_value_error : forall self, root_ok (fs_root self) -> forall req st,
+  snd (render_to_pipe self req st) <> inl XValueError.
+Proof. exact render_to_pipe_no_value_error. Qed.
+Print Assumptions C19_no_internal_value_error.
 
 (* ================= non-vacuity and witnesses *)
 Definition ex_root : list (list Z) := [S "/srv/root"].
@@ -277,3 +318,21 @@ Example C19_tick_nonvacuous :
   map (map (fun o => (rcode (snd o), length (fst o)))) outs = [[(69, 3%nat)]; [(0, 1%nat)]; [(66, 1%nat)]; [(0, 2%nat)]]
   /\ obs_under (load_parts ex_root) st'.
 Proof. vm_compute. split; [reflexivity|repeat constructor]. Qed.
+
+(* round 6: aiocoap's own client (no Block2 in the first request, then blocks 1, 2 of exponent 6) and a fetch whose size
+   exponent changes from block to block (32 + 16 + 16 + 64-byte blocks over 100 bytes) *)
+Example C19_tiling_nonvacuous :
+  let big := [([S "srv"], NDir); ([S "srv"; S "root"], NDir); ([S "srv"; S "root"; S "f"], NFile (pattern 2049 1)); ([S "srv"; S "root"; S "g"], NFile (pattern 100 2))] in
+  let st := {| st_fs := big; st_obs := []; st_spool := [] |} in
+  tiling (pattern 2049 1) (map blk_of [None; Some (1, false, 6); Some (2, true, 6)])
+  /\ tiling (pattern 100 2) (map blk_of [Some (0, false, 1); Some (2, false, 0); Some (3, true, 0); Some (1, false, 2)])
+  /\ payloads (snd (run ex_self st (map (fun b => IOne (with_block2 (ex_req 1 [S "f"]) b)) [None; Some (1, false, 6); Some (2, true, 6)]))) = pattern 2049 1
+  /\ payloads (snd (run ex_self st (map (fun b => IOne (with_block2 (ex_req 1 [S "g"]) b)) [Some (0, false, 1); Some (2, false, 0); Some (3, true, 0); Some (1, false, 2)]))) = pattern 100 2.
+Proof.
+  split; [|split; [|split; vm_compute; reflexivity]].
+  - cbn [map blk_of]. apply tile_more; try lia; [vm_compute; reflexivity|vm_compute; reflexivity|].
+    apply tile_more; try lia; [vm_compute; reflexivity|vm_compute; reflexivity|]. apply tile_last; try lia. vm_compute. reflexivity.
+  - cbn [map blk_of]. apply tile_more; try lia; [vm_compute; reflexivity|vm_compute; reflexivity|].
+    apply tile_more; try lia; [vm_compute; reflexivity|vm_compute; reflexivity|].
+    apply tile_more; try lia; [vm_compute; reflexivity|vm_compute; reflexivity|]. apply tile_last; try lia. vm_compute. reflexivity.
+Qed.
